@@ -23,7 +23,8 @@
                      tree 0 holds only sentinel files outside the allowed set (parent
                      directories, sub-directories, root, names with dots, hidden names,
                      un-suffixed names ...), tree 1 additionally holds files of the
-                     allowed set and one more foreign file.
+                     allowed set and one more foreign file, tree 2 (fault tree) is tree 0
+                     with DIRECTORIES where accepted names point (d.gr e.gr .gr grol.png).
      operations      Save(name), Load(name) (absent when ls is off), ImageSave(img)
                      (always ./grol.png whatever the image is called), Exec (exists
                      only when unres; may touch any file).
@@ -38,6 +39,8 @@
                      decision the same request gets on an empty file system
                      (action property: checked on every explored transition)
      RejectNoEffect  a rejected request changes neither fs nor acc (action property)
+     FailNoEffect    a request that fails for any reason (refused, or accepted and then refused by the
+                     operating system: target is a directory, name too long) leaves fs unchanged
      NoLoadSave      with ls off Save/Load are never enabled (checked through acc)
 
    Deviation names one deliberately broken variant of the mechanism; "none" is the
@@ -50,6 +53,8 @@
      ExistingBypass     a name that exists as a file is accepted   -> NameOnly
      CreateBeforeCheck  save creates the raw path, then validates  -> RejectNoEffect
      ExecWhenRestricted exec registered whatever the flags         -> ExecAbsent
+     TempLeftOnFailure  save via temp file + rename, temp file
+                        left behind when the rename is refused      -> FailNoEffect (and Confined)
      StripAll           every ".gr" suffix is stripped (loop)      -> nothing: keeps the property
 
    GEN: hist/last are history variables outside the VIEW; every transition is emitted
@@ -112,7 +117,13 @@ San(fl, hasArg, name) ==
 D1 == B("l1")   D2 == B("l2")   D3 == B("cwd")
 Cwd == <<D1, D2, D3>>
 SubDirNames == {B("a"), B("0"), B("_"), B("~"), B(" "), B("\\"), B("sub"), <<233>>}
-Dirs == {<<>>, <<D1>>, <<D1, D2>>, Cwd} \cup {Append(Cwd, d) : d \in SubDirNames}
+BaseDirs == {<<>>, <<D1>>, <<D1, D2>>, Cwd} \cup {Append(Cwd, d) : d \in SubDirNames}
+\* tree 2 (the fault tree): the targets of some accepted names exist as DIRECTORIES, so that the request passes the
+\* sanitiser and fails in the operating system (EISDIR): d.gr empty, e.gr and .gr non-empty, grol.png for image.save
+FaultDirs == {Append(Cwd, n) : n \in {B("d.gr"), B("e.gr"), B(".gr"), B("grol.png")}}
+DirsOf(t) == IF t = 2 THEN BaseDirs \cup FaultDirs ELSE BaseDirs
+Dirs == DirsOf(tree)
+NameMax == 255   \* longest file-name component the OS takes (ENAMETOOLONG beyond)
 
 RECURSIVE SplitAt(_, _, _)
 SplitAt(s, i, cur) ==   \* components of s separated by '/', including empty ones
@@ -127,7 +138,8 @@ Walk(at, comps, i) ==
   IF i > Len(comps) THEN [ok |-> TRUE, at |-> at]
   ELSE IF at \notin Dirs THEN [ok |-> FALSE, at |-> at]      \* ENOTDIR / ENOENT
   ELSE LET c == comps[i] IN
-       IF c = <<>> \/ c = Dot THEN Walk(at, comps, i + 1)
+       IF Len(c) > NameMax THEN [ok |-> FALSE, at |-> Append(at, c)]     \* ENAMETOOLONG (the attempt is on that name)
+       ELSE IF c = <<>> \/ c = Dot THEN Walk(at, comps, i + 1)
        ELSE IF c = DotDot THEN Walk(IF at = <<>> THEN at ELSE SubSeq(at, 1, Len(at) - 1), comps, i + 1)
        ELSE Walk(Append(at, c), comps, i + 1)
 
@@ -163,12 +175,16 @@ Sentinels0 ==
                           B("\\.gr"), B("a\\.gr"), B("\\a.gr"), <<233, 46, 103, 114>>, <<97, 233, 46, 103, 114>>}}
 AllowedFiles1 == {InCwd(n) : n \in {B(".gr"), B("a.gr"), B("0.gr"), B("_.gr"), B("a0_.gr"), B("grol.png")}}
 Sentinels1 == Sentinels0 \cup {InCwd(B("a~")), InCwd(B("a.")), InCwd(B(".a"))}
-InitFS(t) == IF t = 0 THEN [f \in Sentinels0 |-> "init"]
-             ELSE [f \in Sentinels1 \cup AllowedFiles1 |-> "init"]
+Sentinels2 == Sentinels0 \cup {Append(InCwd(B("e.gr")), B("a.gr")), Append(InCwd(B(".gr")), B("a.gr"))}
+FilesOf(t) == CASE t = 0 -> Sentinels0
+                [] t = 1 -> Sentinels1 \cup AllowedFiles1
+                [] t = 2 -> Sentinels2
+InitFS(t) == [f \in FilesOf(t) |-> "init"]
 EmptyFS == [f \in {} |-> "init"]
-ASSUME (Sentinels1 \cup AllowedFiles1) \cap Dirs = {}    \* a path is a file or a directory, not both
-ASSUME \A f \in Sentinels1 \cup AllowedFiles1 : SubSeq(f, 1, Len(f) - 1) \in Dirs
-ASSUME \A c \in DOMAIN Flags : \A f \in Sentinels1 : ~Allowed(c, f)   \* sentinels are outside every allowed set
+ASSUME \A t \in 0..2 : FilesOf(t) \cap DirsOf(t) = {}    \* a path is a file or a directory, not both
+ASSUME \A t \in 0..2 : \A f \in FilesOf(t) : SubSeq(f, 1, Len(f) - 1) \in DirsOf(t)
+ASSUME \A t \in 0..2 : \A d \in DirsOf(t) : d = <<>> \/ SubSeq(d, 1, Len(d) - 1) \in DirsOf(t)
+ASSUME \A c \in DOMAIN Flags : \A f \in Sentinels1 \cup Sentinels2 : ~Allowed(c, f)   \* sentinels are outside every allowed set
 
 \* ------------------------------------------------------------------ decisions and effects
 \* the decision taken for a request in file-system state g
@@ -184,6 +200,14 @@ DoCreate(g, p) ==
   IF ~r.ok THEN <<g, IF p = <<>> \/ HasNul(p) THEN {} ELSE {Ev("attempt", r.file)}, TRUE>>
   ELSE IF r.file \in DOMAIN g THEN <<[g EXCEPT ![r.file] = "saved"], {Ev("trunc", r.file)}, FALSE>>
   ELSE <<(r.file :> "saved") @@ g, {Ev("create", r.file)}, FALSE>>
+\* save: the code creates/truncates the target directly.  Deviation TempLeftOnFailure writes a temporary file next to
+\* it and renames it over the target, and forgets the temporary file when the rename is refused.
+TmpFile == InCwd(B(".grol0.tmp"))
+DoSave(g, p) ==
+  LET e == DoCreate(g, p) IN
+  IF Deviation = "TempLeftOnFailure" /\ e[3] /\ e[2] # {}
+  THEN <<(TmpFile :> "saved") @@ g, e[2] \cup {Ev("create", TmpFile)}, TRUE>>
+  ELSE e
 DoRead(g, p) ==
   LET r == Resolve(p) IN
   IF ~r.ok THEN <<g, IF p = <<>> \/ HasNul(p) THEN {} ELSE {Ev("attempt", r.file)}, TRUE>>
@@ -209,11 +233,11 @@ Request(op, hasArg, name) ==
          dref == Decide(F, EmptyFS, op, hasArg, name)
          pre  == IF op = "save" /\ Deviation = "CreateBeforeCheck" /\ hasArg THEN DoCreate(fs, name) ELSE <<fs, {}, FALSE>>
          eff  == IF ~d.ok THEN <<pre[1], pre[2], TRUE>>
-                 ELSE IF op = "save" THEN LET e == DoCreate(pre[1], d.path) IN <<e[1], e[2] \cup pre[2], e[3]>>
+                 ELSE IF op = "save" THEN LET e == DoSave(pre[1], d.path) IN <<e[1], e[2] \cup pre[2], e[3]>>
                  ELSE DoRead(pre[1], d.path)
      IN /\ fs'   = eff[1]
         /\ acc'  = acc \cup eff[2]
-        /\ last' = [op |-> op, ok |-> d.ok, okref |-> dref.ok]
+        /\ last' = [op |-> op, ok |-> d.ok, okref |-> dref.ok, failed |-> eff[3]]
         /\ hist' = Append(hist, [o |-> op, g |-> JBool(hasArg), n |-> name, ok |-> JBool(d.ok), f |-> Target(d)])
         /\ Emit(op, hasArg, name, d, eff)
   /\ UNCHANGED <<cfg, tree, shard>>
@@ -221,7 +245,7 @@ Request(op, hasArg, name) ==
 \* save/load called although the configuration has no such function: nothing happens
 AbsentCall(op, name) ==
   /\ Room /\ ~F.ls
-  /\ last' = [op |-> op, ok |-> FALSE, okref |-> FALSE]
+  /\ last' = [op |-> op, ok |-> FALSE, okref |-> FALSE, failed |-> TRUE]
   /\ hist' = Append(hist, [o |-> op, g |-> 1, n |-> name, ok |-> 0, f |-> <<>>])
   /\ Emit(op, TRUE, name, Rej, <<fs, {}, TRUE>>)
   /\ UNCHANGED <<cfg, tree, shard, fs, acc>>
@@ -230,7 +254,7 @@ ImageSave(img) ==
   /\ Room
   /\ LET e == DoCreate(fs, B("grol.png"))
      IN /\ fs' = e[1] /\ acc' = acc \cup e[2]
-        /\ last' = [op |-> "image", ok |-> TRUE, okref |-> TRUE]
+        /\ last' = [op |-> "image", ok |-> TRUE, okref |-> TRUE, failed |-> e[3]]
         /\ hist' = Append(hist, [o |-> "image", g |-> 1, n |-> img, ok |-> 1, f |-> InCwd(B("grol.png"))])
         /\ Emit("image", TRUE, img, Acc(B("grol.png")), e)
   /\ UNCHANGED <<cfg, tree, shard>>
@@ -242,9 +266,9 @@ Exec ==
   /\ IF ExecExists
      THEN /\ acc' = acc \cup {Ev("exec", <<B("a.gr")>>)}
           /\ fs' = [fs EXCEPT ![<<B("a.gr")>>] = "saved"]
-          /\ last' = [op |-> "exec", ok |-> TRUE, okref |-> TRUE]
+          /\ last' = [op |-> "exec", ok |-> TRUE, okref |-> TRUE, failed |-> FALSE]
      ELSE /\ UNCHANGED <<fs, acc>>
-          /\ last' = [op |-> "exec", ok |-> FALSE, okref |-> FALSE]
+          /\ last' = [op |-> "exec", ok |-> FALSE, okref |-> FALSE, failed |-> TRUE]
   /\ hist' = Append(hist, [o |-> "exec", g |-> 0, n |-> <<>>, ok |-> JBool(ExecExists), f |-> <<>>])
   /\ (EmitOn => EmitLine(ToJson([c |-> cfg, t |-> tree, h |-> hist, o |-> "exec", g |-> 0, n |-> <<>>,
                                  ok |-> JBool(ExecExists), p |-> <<>>, f |-> <<>>, oserr |-> 0, ev |-> {}])))
@@ -252,7 +276,8 @@ Exec ==
 
 Init == /\ cfg \in Configs /\ tree \in Trees /\ shard \in 0..(Shards - 1)
         /\ fs = InitFS(tree) /\ acc = {} /\ hist = <<>>
-        /\ last = [op |-> "init", ok |-> TRUE, okref |-> TRUE]
+        /\ (tree = 2 => shard = 0)
+        /\ last = [op |-> "init", ok |-> TRUE, okref |-> TRUE, failed |-> FALSE]
         \* GEN: the initial trees are part of what the harness builds on the real file system
         /\ (EmitOn /\ shard = 0) =>
               EmitLine(ToJson([init |-> tree, c |-> cfg, files |-> DOMAIN fs, dirs |-> Dirs, cwd |-> Cwd]))
@@ -260,8 +285,9 @@ Init == /\ cfg \in Configs /\ tree \in Trees /\ shard \in 0..(Shards - 1)
 \* every name of the exhaustive set (plain and with ".gr" appended) exactly once over all shards, then the pinned ones
 ShardOf(b) == Cardinality({x \in Alphabet : x < b}) % Shards
 AnyName(P(_)) ==
-  \/ \E n \in 1..MaxLen : \E b \in {x \in Alphabet : ShardOf(x) = shard} : \E s \in [1..(n - 1) -> Alphabet] :
-        LET nm == <<b>> \o s IN P(nm) \/ P(nm \o Gr)
+  \/ /\ tree # 2          \* the fault tree is explored with the pinned names only
+     /\ \E n \in 1..MaxLen : \E b \in {x \in Alphabet : ShardOf(x) = shard} : \E s \in [1..(n - 1) -> Alphabet] :
+          LET nm == <<b>> \o s IN P(nm) \/ P(nm \o Gr)
   \/ /\ shard = 0
      /\ (P(<<>>) \/ P(Gr) \/ \E s \in ExtraNames : P(s))
 
@@ -282,4 +308,6 @@ ExecAbsent == Restricted => \A a \in acc : a.k # "exec"
 NoLoadSave == ~F.ls => \A a \in acc : a.f = InCwd(B("grol.png")) \/ a.k = "exec"
 NameOnly       == [][last'.ok = last'.okref]_vars
 RejectNoEffect == [][~last'.ok => (fs' = fs /\ acc' = acc)]_vars
+\* a request that fails - refused by the sanitiser or by the operating system - leaves the file system as it was
+FailNoEffect   == [][last'.failed => fs' = fs]_vars
 =============================================================================
